@@ -33,6 +33,7 @@ pub struct OpSpec {
     pub f:      i64,
     pub then:   String,
     pub n:      usize,
+    pub p:      usize,
 }
 
 #[derive(Clone, Debug)]
@@ -44,6 +45,7 @@ pub struct Scenario {
     pub objects: usize,
     pub pool:    usize,
     pub gates:   usize,
+    pub pipes:   usize,
     pub threads: Vec<ThreadSpec>,
 }
 
@@ -60,6 +62,7 @@ fn parse_op(v: &Value) -> OpSpec {
         f:      v["f"].as_i64().unwrap_or(0),
         then:   v["then"].as_str().unwrap_or("keep").to_string(),
         n:      v["n"].as_u64().unwrap_or(0) as usize,
+        p:      v["p"].as_u64().unwrap_or(0) as usize,
     }
 }
 
@@ -70,6 +73,7 @@ impl Scenario {
             objects: v["objects"].as_u64().unwrap_or(1) as usize,
             pool:    v["pool"].as_u64().unwrap_or(0) as usize,
             gates:   v["gates"].as_u64().unwrap_or(0) as usize,
+            pipes:   v["pipes"].as_u64().unwrap_or(0) as usize,
             threads: v["threads"].as_array().map(|a| a.iter().map(|t| ThreadSpec {
                 name: t["name"].as_str().unwrap_or("c").to_string(),
                 ops:  t["ops"].as_array().map(|a| a.iter().map(parse_op).collect()).unwrap_or_else(|| vec![])
@@ -86,9 +90,32 @@ pub struct Ctx {
     objects:     Vec<Mutex<Option<Arc<Desync<Payload>>>>>,
     queues:      Vec<Arc<JobQueue>>,
     gates:       Vec<Mutex<Gate>>,
+    pipes:       Vec<PipeSlot>,
 }
 
 pub fn token(id: i64) -> i64 { id * 7 + 3 }
+
+/// The input side of a pipe: a stream whose items are supplied by `send` operations
+struct InputShared { items: std::collections::VecDeque<i64>, closed: bool, waker: Option<task::Waker> }
+struct InputStream { shared: Arc<Mutex<InputShared>>, sched: &'static Sched, pipe: usize }
+
+impl Stream for InputStream {
+    type Item = i64;
+    fn poll_next(self: Pin<&mut Self>, context: &mut Context) -> Poll<Option<i64>> {
+        let mut shared = self.shared.lock().unwrap();
+        if let Some(item) = shared.items.pop_front() { Poll::Ready(Some(item)) }
+        else if shared.closed { self.sched.obs("in_end", self.pipe as i64, 0); Poll::Ready(None) }
+        else { shared.waker = Some(context.waker().clone()); Poll::Pending }
+    }
+}
+
+impl Drop for InputStream { fn drop(&mut self) { self.sched.obs("in_dropped", self.pipe as i64, 0); } }
+
+/// Dropped together with the processing closure of a pipe
+struct ClosureFlag { sched: &'static Sched, pipe: usize }
+impl Drop for ClosureFlag { fn drop(&mut self) { self.sched.obs("closure_dropped", self.pipe as i64, 0); } }
+
+pub struct PipeSlot { input: Arc<Mutex<InputShared>>, stream: Mutex<Option<desync::PipeStream<i64>>> }
 
 /// Future that completes once a gate has fired
 struct GateFuture { ctx: Arc<Ctx>, gate: usize }
@@ -275,7 +302,7 @@ fn exec_inner(ctx: &Arc<Ctx>, op: &OpSpec, slots: &mut Slots) -> i64 {
 
             match op.then.as_str() {
                 "await" => { let code = ctx.block_on(future); std::mem::drop(object); ctx.sched.obs("resolved", op.id, code); code }
-                "drop"  => { std::mem::drop(future); std::mem::drop(object); 0 }
+                "drop"  => { ctx.sched.obs("dropped", op.id, 0); std::mem::drop(future); std::mem::drop(object); 0 }
                 _       => { slots.slots.insert(op.id, Slot::Code(future, Some(object))); 0 }
             }
         }
@@ -317,13 +344,14 @@ fn exec_inner(ctx: &Arc<Ctx>, op: &OpSpec, slots: &mut Slots) -> i64 {
         }
 
         "dropf" | "detach" => {
+            // The drop is the cancellation request: it is recorded before the future is destroyed
+            ctx.sched.obs("dropped", op.f, 0);
             match slots.slots.remove(&op.f) {
                 Some(Slot::Sched(f, _)) => { if op.k == "detach" { f.detach() } else { std::mem::drop(f) } }
                 Some(Slot::Code(f, keep)) => { std::mem::drop(f); std::mem::drop(keep); }
                 Some(other)             => { std::mem::drop(other); }
                 None                    => { }
             }
-            ctx.sched.obs("dropped", op.f, 0);
             0
         }
 
@@ -356,6 +384,65 @@ fn exec_inner(ctx: &Arc<Ctx>, op: &OpSpec, slots: &mut Slots) -> i64 {
             }
         }
 
+        "pipe_in" | "pipe" => {
+            // processing function: records start/end of each item (with a yield in between), optionally awaits a gate, produces item * 10
+            let slot        = &ctx.pipes[op.p - 1];
+            let input       = InputStream { shared: Arc::clone(&slot.input), sched: ctx.sched, pipe: op.p };
+            let flag        = ClosureFlag { sched: ctx.sched, pipe: op.p };
+            let (ctx2, pipe, gate) = (Arc::clone(ctx), op.p as i64, op.g);
+            let process     = move |_payload: &mut Payload, item: i64| {
+                let _flag = &flag;
+                let ctx3 = Arc::clone(&ctx2);
+                async move {
+                    ctx3.sched.obs("proc_start", pipe, item);
+                    ctx3.sched.yield_now("body");
+                    if gate != 0 { GateFuture { ctx: Arc::clone(&ctx3), gate }.await; ctx3.sched.yield_now("resumed"); }
+                    ctx3.sched.obs("proc_end", pipe, item);
+                    item * 10
+                }.boxed()
+            };
+            if op.k == "pipe" {
+                let mut process = process;
+                let stream = desync::pipe(ctx.obj(op.o), input, move |payload, item| process(payload, item));
+                *slot.stream.lock().unwrap() = Some(stream);
+            } else {
+                let mut process = process;
+                desync::pipe_in(ctx.obj(op.o), input, move |payload, item| { let fut = process(payload, item); async move { fut.await; }.boxed() });
+            }
+            0
+        }
+
+        "send" | "close_input" => {
+            let waker = {
+                let mut shared = ctx.pipes[op.p - 1].input.lock().unwrap();
+                if op.k == "send" { shared.items.push_back(op.n as i64); ctx.sched.obs("sent", op.p as i64, op.n as i64); }
+                else { shared.closed = true; ctx.sched.obs("in_closed", op.p as i64, 0); }
+                shared.waker.take()
+            };
+            if let Some(waker) = waker { waker.wake(); }
+            0
+        }
+
+        "next" => {
+            let mut stream = ctx.pipes[op.p - 1].stream.lock().unwrap().take().expect("no pipe stream");
+            let item = ctx.block_on(stream.next());
+            match item { Some(value) => ctx.sched.obs("out", op.p as i64, value), None => ctx.sched.obs("out_end", op.p as i64, 0) }
+            *ctx.pipes[op.p - 1].stream.lock().unwrap() = Some(stream);
+            0
+        }
+
+        "drop_stream" => {
+            let stream = ctx.pipes[op.p - 1].stream.lock().unwrap().take();
+            ctx.sched.obs("stream_dropped", op.p as i64, 0);
+            std::mem::drop(stream);
+            0
+        }
+
+        "set_depth" => {
+            if let Some(stream) = ctx.pipes[op.p - 1].stream.lock().unwrap().as_mut() { stream.set_backpressure_depth(op.n); }
+            0
+        }
+
         "set_max" => { scheduler().verif_set_max_threads(op.n); ctx.sched.obs("setmax", op.n as i64, 0); 0 }
         "despawn" => { scheduler().despawn_threads_if_overloaded(); 0 }
         "nop"     => 0,
@@ -377,7 +464,8 @@ pub fn setup(sched: &'static Sched, scenario: &Scenario) -> Arc<Ctx> {
     let queues: Vec<Arc<JobQueue>> = objects.iter().map(|d| Arc::clone(d.verif_queue())).collect();
     let gates = (0..scenario.gates).map(|_| Mutex::new(Gate { fired: false, waker: None, thread_waiters: vec![] })).collect();
 
-    let ctx = Arc::new(Ctx { sched, objects: objects.into_iter().map(|d| Mutex::new(Some(d))).collect(), queues, gates });
+    let pipes = (0..scenario.pipes).map(|_| PipeSlot { input: Arc::new(Mutex::new(InputShared { items: Default::default(), closed: false, waker: None })), stream: Mutex::new(None) }).collect();
+    let ctx = Arc::new(Ctx { sched, objects: objects.into_iter().map(|d| Mutex::new(Some(d))).collect(), queues, gates, pipes });
 
     let snap_queues = ctx.queues.clone();
     sched.set_snapshot(Some(Arc::new(move || {
@@ -408,7 +496,13 @@ pub fn teardown(sched: &'static Sched, ctx: Arc<Ctx>) -> bool {
 
     let ctx2 = Arc::clone(&ctx);
     sched.start_thread("td".to_string(), Box::new(move || {
-        // Drop whatever objects are still alive
+        // Shut the pipes down, then drop whatever objects are still alive
+        for slot in ctx2.pipes.iter() {
+            let stream = slot.stream.lock().unwrap().take();
+            std::mem::drop(stream);
+            let waker = { let mut shared = slot.input.lock().unwrap(); shared.closed = true; shared.waker.take() };
+            if let Some(waker) = waker { waker.wake(); }
+        }
         for object in ctx2.objects.iter() { let object = object.lock().unwrap().take(); std::mem::drop(object); }
 
         // Flush stale schedule entries with one pool thread, then despawn every pool thread
